@@ -34,7 +34,7 @@ theorem listing_sorted (order : List Pipe) :
   -- the source has one of the two shapes for which the listing is the sorted permutation
   have hshape : Generated.C19.getPipesLibrarySort = true ∨
       (Generated.C19.getPipesLibrarySort = false ∧ Generated.C19.getPipesIncrementsCnt = true ∧
-        Generated.C19.getPipesSearchesOverCnt = true) := by decide
+        Generated.C19.getPipesSearchesOverCnt = true ∧ Generated.C19.getPipesSearchComparesNames = true) := by decide
   unfold listing getPipesShape
   rcases hshape with h | ⟨h, hfact, _⟩
   · rw [h]; exact libSort_sorted_perm order
